@@ -52,6 +52,9 @@ pub struct Rib {
     multicast: Arc<Option<MultiThreadedStore<RotondaPaMap>>>,
     other_fams:
         HashMap<AfiSafiType, HashMap<(IngressId, Nlri<bytes::Bytes>), PaMap>>,
+    // Serialises withdraw_for_ingress(): the store's mark_mui_as_withdrawn*
+    // must not run concurrently with itself (see withdraw_for_ingress()).
+    withdraw_lock: std::sync::Mutex<()>,
 }
 
 #[derive(Copy, Clone, Debug)]
@@ -64,6 +67,7 @@ impl Rib {
             unicast: Arc::new(Some(MultiThreadedStore::new().unwrap())),
             multicast: Arc::new(Some(MultiThreadedStore::new().unwrap())),
             other_fams: HashMap::new(),
+            withdraw_lock: std::sync::Mutex::new(()),
         }
     }
 
@@ -72,6 +76,7 @@ impl Rib {
             unicast: Arc::new(None),
             multicast: Arc::new(None),
             other_fams: HashMap::new(),
+            withdraw_lock: std::sync::Mutex::new(()),
         }
     }
 
@@ -245,6 +250,17 @@ impl Rib {
         //     roto scripts, or what not.
         //     As such, perhaps we should leave the generation of
         //     those withdrawals to the very latest (most-East) point?
+
+        // Every ingress task ends up here on its own thread (direct
+        // updates), and sessions tend to go down together. The store's
+        // mark_mui_as_withdrawn* (rotonda-store 0.4.1) is a compare-and-swap
+        // loop that, once its first attempt fails, retries against the value
+        // it loaded initially and so never returns when two calls overlap.
+        // We are its only caller, so one caller at a time keeps it safe.
+        let _guard = self
+            .withdraw_lock
+            .lock()
+            .unwrap_or_else(|poisoned| poisoned.into_inner());
 
         match specific_afisafi {
             None => {
